@@ -78,7 +78,11 @@ Inductive event :=
 | EQosDropped (cid : bytes) (pid : N)                     (* OnQosDropped *)
 | ESysTick (info : val)                                   (* OnSysInfoTick *)
 | ERetainedExpired (topic : bytes)                        (* OnRetainedExpired *)
-| EClientExpired (cid : bytes).                           (* OnClientExpired *)
+| EClientExpired (cid : bytes)                            (* OnClientExpired *)
+(* markers recorded by the correspondence harness between the storage events; no storage writes *)
+| EAckSent (cid : bytes) (ptype pid reason : N)           (* OnPacketSent: an acknowledgement reached the client *)
+| EProcessed (cid : bytes)                                (* OnPacketProcessed: end of the handling of one inbound packet *)
+| ESuperseded (cid : bytes).                              (* the next event is issued for a client object already taken over *)
 
 (* ---------- keys ---------- *)
 
@@ -104,23 +108,29 @@ Definition dec (n : N) : bytes := dec_fuel 20 n [].
 Definition sub_suffix (cid filter : bytes) : bytes := cid ++ colon :: filter.     (* "<id>:<filter>" *)
 Definition ifm_suffix (cid : bytes) (pid : N) : bytes := cid ++ colon :: dec pid. (* "<id>:<FormatID>" *)
 
-(* ---------- logical writes issued per event ---------- *)
+(* ---------- writes issued per event ---------- *)
 
+(* What a hook method asks the store to do, with structured keys (client id, (client id, filter),
+   (client id, packet id), topic).  The abstract session state of Storage/Restart.v is defined on
+   these; the back ends flatten the keys into byte strings ([wr_of]). *)
+Inductive awr :=
+| ASetClient (c : client_rec)                            (* updateClient *)
+| ADelClient (cid : bytes)
+| ASetSub (cid : bytes) (s : subscription) (granted : N)
+| ADelSub (cid filter : bytes)
+| ASetRet (cid : bytes) (p : pkt)
+| ADelRet (topic : bytes)
+| ASetIfm (cid : bytes) (p : pkt) (sent : N)
+| ADelIfm (cid : bytes) (pid : N)
+| ASetSys (info : val).
+
+(* the same, as the back ends see it: a record type, a key suffix and a record *)
 Inductive wr :=
 | WSet (t : rtype) (suffix : bytes) (v : srec)
 | WDel (t : rtype) (suffix : bytes).
 
-(* updateClient: the record written for a client *)
-Definition update_client (c : rclient) : wr := WSet TCL (cr_id (rc_rec c)) (SClient (rc_rec c)).
-
 Definition sub_record (cid : bytes) (s : subscription) (reason : N) : sub_rec :=
   mkSubRec [] cid (su_filter s) (su_identifier s) (su_rh s) reason (su_rap s) (su_nolocal s).
-
-(* refused filters (reason code >= 0x80) are not persisted *)
-Definition sub_writes (cid : bytes) (subs : list (subscription * N)) : list wr :=
-  flat_map (fun sr => let '(s, reason) := sr in
-                      if 128 <=? reason then []
-                      else [WSet TSUB (sub_suffix cid (su_filter s)) (SSub (sub_record cid s reason))]) subs.
 
 Definition retained_record (cid : bytes) (p : pkt) : msg_rec :=
   mkMsgRec [] cid (p_origin p) 0 (p_fh p) (p_topic p) (p_payload p) 0 (p_created p)
@@ -130,27 +140,55 @@ Definition inflight_record (cid : bytes) (p : pkt) (sent : N) : msg_rec :=
   mkMsgRec [] cid (p_origin p) (p_pid p) (p_fh p) (p_topic p) (p_payload p) sent (p_created p)
            (p_pf p) (p_pf_flag p) (p_mei p) (p_props p).
 
-Definition hook_writes (e : event) : list wr :=
-  match e with
-  | ESessionEstablished c => [update_client c]
-  | EWillSent c => [update_client c]
-  | EDisconnect c expire =>
-      update_client c ::
-      (if expire && negb (rc_takenover c) then [WDel TCL (cr_id (rc_rec c))] else [])
-  | ESubscribed cid subs => sub_writes cid subs
-  | EUnsubscribed cid filters => map (fun f => WDel TSUB (sub_suffix cid f)) filters
-  | ERetain cid p clear =>
-      if clear then [WDel TRET (p_topic p)]
-      else [WSet TRET (p_topic p) (SMsg (retained_record cid p))]
-  | EQosPublish cid p sent => [WSet TIFM (ifm_suffix cid (p_pid p)) (SMsg (inflight_record cid p sent))]
-  | EQosComplete cid pid => [WDel TIFM (ifm_suffix cid pid)]
-  | EQosDropped cid pid => [WDel TIFM (ifm_suffix cid pid)]
-  | ESysTick info => [WSet TSYS (type_tag TSYS) (SSys (type_tag TSYS) info)]
-  | ERetainedExpired topic => [WDel TRET topic]
-  | EClientExpired cid => [WDel TCL cid]
+Definition wr_of (a : awr) : wr :=
+  match a with
+  | ASetClient c => WSet TCL (cr_id c) (SClient c)
+  | ADelClient cid => WDel TCL cid
+  | ASetSub cid s granted => WSet TSUB (sub_suffix cid (su_filter s)) (SSub (sub_record cid s granted))
+  | ADelSub cid filter => WDel TSUB (sub_suffix cid filter)
+  | ASetRet cid p => WSet TRET (p_topic p) (SMsg (retained_record cid p))
+  | ADelRet topic => WDel TRET topic
+  | ASetIfm cid p sent => WSet TIFM (ifm_suffix cid (p_pid p)) (SMsg (inflight_record cid p sent))
+  | ADelIfm cid pid => WDel TIFM (ifm_suffix cid pid)
+  | ASetSys info => WSet TSYS (type_tag TSYS) (SSys (type_tag TSYS) info)
   end.
 
-Definition writes_of (evs : list event) : list wr := flat_map hook_writes evs.
+(* updateClient: nothing is written for a client whose session was taken over (the stored record
+   belongs to the session that took it over) *)
+Definition update_client (c : rclient) : list awr :=
+  if rc_takenover c then [] else [ASetClient (rc_rec c)].
+
+(* refused filters (reason code >= 0x80) are not persisted *)
+Definition sub_awrites (cid : bytes) (subs : list (subscription * N)) : list awr :=
+  flat_map (fun sr => let '(s, reason) := sr in
+                      if 128 <=? reason then [] else [ASetSub cid s reason]) subs.
+
+Definition hook_awrites (e : event) : list awr :=
+  match e with
+  | ESessionEstablished c => update_client c
+  | EWillSent c => update_client c
+  | EDisconnect c expire =>
+      update_client c ++
+      (if expire && negb (rc_takenover c) then [ADelClient (cr_id (rc_rec c))] else [])
+  | ESubscribed cid subs => sub_awrites cid subs
+  | EUnsubscribed cid filters => map (ADelSub cid) filters
+  | ERetain cid p clear => if clear then [ADelRet (p_topic p)] else [ASetRet cid p]
+  | EQosPublish cid p sent => [ASetIfm cid p sent]
+  | EQosComplete cid pid => [ADelIfm cid pid]
+  | EQosDropped cid pid => [ADelIfm cid pid]
+  | ESysTick info => [ASetSys info]
+  | ERetainedExpired topic => [ADelRet topic]
+  | EClientExpired cid => [ADelClient cid]
+  | EAckSent _ _ _ _ => []
+  | EProcessed _ => []
+  | ESuperseded _ => []
+  end.
+
+Definition awrites_of (evs : list event) : list awr := flat_map hook_awrites evs.
+
+Definition hook_writes (e : event) : list wr := map wr_of (hook_awrites e).
+
+Definition writes_of (evs : list event) : list wr := map wr_of (awrites_of evs).
 
 (* ---------- physical layouts ---------- *)
 
@@ -211,7 +249,9 @@ Definition apply_wr (b : backend) (st : bstore) (w : wr) : bstore :=
 
 Definition apply_writes (b : backend) (st : bstore) (ws : list wr) : bstore := fold_left (apply_wr b) ws st.
 
-Definition run_hooks (b : backend) (evs : list event) : bstore := apply_writes b (empty_store b) (writes_of evs).
+Definition run_awrites (b : backend) (aws : list awr) : bstore := apply_writes b (empty_store b) (map wr_of aws).
+
+Definition run_hooks (b : backend) (evs : list event) : bstore := run_awrites b (awrites_of evs).
 
 (* ---------- read back: Stored* ---------- *)
 
@@ -281,5 +321,6 @@ Definition rb_equiv (r1 r2 : readback) : Prop :=
 Definition wr_key_len (w : wr) : N :=
   match w with WSet t s _ => N.of_nat (length (flat_key t s)) | WDel t s => N.of_nat (length (flat_key t s)) end.
 Definition is_set (w : wr) : bool := match w with WSet _ _ _ => true | _ => false end.
-Definition KF_C22_key_limit (evs : list event) : bool :=
-  existsb (fun w => is_set w && (32768 <? wr_key_len w)) (writes_of evs).
+Definition key_limit_exceeded (aws : list awr) : bool :=
+  existsb (fun w => is_set w && (32768 <? wr_key_len w)) (map wr_of aws).
+Definition KF_C22_key_limit (evs : list event) : bool := key_limit_exceeded (awrites_of evs).
